@@ -24,7 +24,7 @@ LEVEL_TEXT = ("Multi-file, irregular frame layouts with a time-dependent sheared
 LEVEL_NOTE = "Negation and the interpolation arithmetic are sign-symmetric in IEEE arithmetic, but increments accumulate in a different order in the two runs (float32 fields): tolerance 1e-5 cells relative to O(1) positions is used for float32 storage, 1e-9 for float64 storage."
 RULE = ("case = (frame layout, file partition, start/stop positions, release table, mode, scheme). Non-trivial: at least two release times and a frame hand-over inside the run; "
         "distinct by parameters.")
-MANDATORY = ["split_output", "particle_variable_files_compared", "release_time_between_steps", "records_compared", "multi_file", "several_release_times", "continuous", "discrete", "scheme_EF", "scheme_RK2", "scheme_RK4", "start_between_frames",
+MANDATORY = ["release_rows_outside_the_window", "duration_not_a_whole_number_of_steps", "split_output", "particle_variable_files_compared", "release_time_between_steps", "records_compared", "multi_file", "several_release_times", "continuous", "discrete", "scheme_EF", "scheme_RK2", "scheme_RK4", "start_between_frames",
              "clock_readings_checked", "release_times_checked"]
 ASSUMPTIONS = ["frames on the model time grid; release times sorted in simulation order"]
 TIMEOUT = {"quick": 900, "thorough": 3400}
@@ -78,8 +78,15 @@ def build(case: dict[str, Any]):
         for _ in range(int(rng.integers(1, 4))):
             rid += 1
             rows.append(dict(step=s, frac=frac, X=float(np.round(rng.uniform(6, imax - 7), 3)), Y=float(np.round(rng.uniform(5, jmax - 6), 3)), Z=float(np.round(rng.uniform(0, 80), 2)), rid=rid))
+    outside = bool(not cont and case["idx"] % 4 == 1)
+    if outside:
+        # rows outside the simulated window, on both sides (in the reversed table: later than S and earlier than E); they release nobody
+        for s_ in (-2, -1, ns + 1):
+            rid += 1
+            rows.append(dict(step=s_, frac=0.0, X=9.5, Y=7.5, Z=5.0, rid=rid))
+    extra = dt // 2 if (case["idx"] % 5 == 2 and E > P[0]) else 0  # |stop - start| not a whole number of steps: both runs take floor(.) steps
     return dict(dt=dt, P=P, files=files, S=S, E=E, ns=ns, imax=imax, jmax=jmax, N=N, dx=dx, pattern=pattern, amp=amp, prof=prof, store=store, scheme=scheme,
-                cont=cont, freq=freq, rows=rows, numrec=int(rng.choice([0, 2, 3])))
+                cont=cont, freq=freq, rows=rows, numrec=int(rng.choice([0, 2, 3])), outside=outside, extra=extra)
 
 
 def scenarios(b: dict[str, Any]):
@@ -105,8 +112,9 @@ def scenarios(b: dict[str, Any]):
             d.update(continuous=True, freq=b["freq"] * dt)
         return d
 
-    run_rev = dict(start=start, stop=str(tadd(start, -b["ns"] * dt)), dt=dt, reversed=True, advection=b["scheme"], release=rel(rrev), state=st, output=out)
-    run_fwd = dict(start=start, stop=str(tadd(start, b["ns"] * dt)), dt=dt, advection=b["scheme"], release=rel(rfwd), state=st, output=out)
+    ex = int(b.get("extra", 0))
+    run_rev = dict(start=start, stop=str(tadd(start, -b["ns"] * dt - ex)), dt=dt, reversed=True, advection=b["scheme"], release=rel(rrev), state=st, output=out)
+    run_fwd = dict(start=start, stop=str(tadd(start, b["ns"] * dt + ex)), dt=dt, advection=b["scheme"], release=rel(rfwd), state=st, output=out)
     return dict(world=wrev, run=run_rev), dict(world=wfwd, run=run_fwd), start
 
 
@@ -132,6 +140,8 @@ def run_case(case: dict[str, Any], wd: Path) -> dict[str, Any]:
     sit[f"scheme_{b['scheme']}"] = 1
     sit["start_between_frames"] = int(b["S"] not in b["P"])
     sit["release_time_between_steps"] = int(any(r.get("frac") for r in b["rows"]))
+    sit["release_rows_outside_the_window"] = int(bool(b.get("outside")))
+    sit["duration_not_a_whole_number_of_steps"] = int(bool(b.get("extra")))
     key = str(desc)
     if not fres.ok:
         # the mirrored forward run is the reference: if it cannot run the case is void for this property
@@ -208,7 +218,11 @@ def run_case(case: dict[str, Any], wd: Path) -> dict[str, Any]:
         sit["records_compared"] = sit.get("records_compared", 0) + 1
     if not V:
         for r in b["rows"]:
-            if r["step"] < b["ns"] and not r.get("frac"):
+            if not (0 <= r["step"] < b["ns"]):
+                if r["rid"] in first_seen and not b["cont"]:
+                    V.append(C.viol(f"release row {r['rid']} stated for {tadd(start, -r['step'] * dt)} (step {r['step']}, outside the simulated window) appears in record {first_seen[r['rid']]} of the reversed run", **desc))
+                continue
+            if not r.get("frac"):
                 sit["release_times_checked"] = sit.get("release_times_checked", 0) + 1
                 if first_seen.get(r["rid"]) != r["step"]:
                     V.append(C.viol(f"release row {r['rid']} stated for {tadd(start, -r['step'] * dt)} (step {r['step']}) first appears in record {first_seen.get(r['rid'])} of the reversed run", **desc))
